@@ -753,8 +753,8 @@ func randWorkflow(r *lib.Rng, tier string) *Case {
 				ends = append(ends, keys[j])
 			}
 		}
-		if len(ends) < 2 {
-			ends = append(ends, "end")
+		if len(ends) < 2 || r.Chance(1, 3) {
+			ends = append(ends, "end") // END beside two or more node targets too: three-way branches
 		}
 		if len(ends) < 2 && fi+1 < n {
 			ends = append(ends, keys[n-1])
